@@ -1,0 +1,39 @@
+//go:build verif
+
+package rsm
+
+import (
+	"io"
+
+	"github.com/lni/dragonboat/v4/internal/vfs"
+	pb "github.com/lni/dragonboat/v4/raftpb"
+)
+
+// White-box access for the C14 verification harness (snapshot file format).
+// Compiled only with -tags verif.
+
+// VerifNewBlockReader returns the block reader of rwv.go with a chosen block
+// size. r must cover the blocks only (no 16 byte tail).
+func VerifNewBlockReader(r io.Reader, blockSize uint64) io.Reader {
+	return newBlockReader(r, blockSize, pb.CRC32IEEE)
+}
+
+// VerifNewVersionedSnapshotWriter creates a snapshot writer of the given
+// format version.
+func VerifNewVersionedSnapshotWriter(fp string, v uint64,
+	ct pb.CompressionType, fs vfs.IFS) (*SnapshotWriter, error) {
+	return newVersionedSnapshotWriter(fp, SSVersion(v), ct, fs)
+}
+
+// VerifGetV2PayloadSize is getV2PayloadSize.
+func VerifGetV2PayloadSize(sz uint64, blockSize uint64) uint64 {
+	return getV2PayloadSize(sz, blockSize)
+}
+
+// VerifCRCOffsets is getV2CRCOffsetListFromFileSize.
+func VerifCRCOffsets(sz uint64) ([]uint64, error) {
+	return getV2CRCOffsetListFromFileSize(sz)
+}
+
+// VerifBlockSize returns the block size constant of v2 files.
+func VerifBlockSize() uint64 { return blockSize }
